@@ -416,11 +416,9 @@ def stepTIC (s : St) (op : List String) (impl : String) : St × String :=
   if s.dead then (s, s!"dead\t{impl}\t-") else
   let upd (ev : TextInputCl.Ev Nat) (sop : Op (List Nat)) : St × String :=
     let ed' := VaxisModel.Spec.Editor.applyC cl isW s.edc sop
-    -- the interpreted body against the hand-written model (a theorem for the covered events, checked here for all)
-    let diff := if decide (tiUpdI cl isW s.tic ev = TextInputCl.update cl isW s.tic ev) then "" else " BODY-MODEL-DIFF"
     match tiUpdI cl isW s.tic ev with
-    | none => ({ s with dead := true }, s!"panic{diff}\t{impl}\t{verdictEq "textinput" impl (ticExpect ed')}")
-    | some m' => ({ s with tic := m', edc := ed' }, s!"{ticCanon m'}{segFlag cl m'.content.flatten}{diff}\t{impl}\t{verdictEq "textinput" impl (ticExpect ed')}")
+    | none => ({ s with dead := true }, s!"panic\t{impl}\t{verdictEq "textinput" impl (ticExpect ed')}")
+    | some m' => ({ s with tic := m', edc := ed' }, s!"{ticCanon m'}{segFlag cl m'.content.flatten}\t{impl}\t{verdictEq "textinput" impl (ticExpect ed')}")
   match op with
   | ["upd", m, key, mods, text, _name] =>
     match ids? text with
